@@ -499,6 +499,9 @@ class Evaluator:
             if l['k'] == 'Path' and l['res'].get('t') == 'local':
                 env[l['res']['id']] = v
                 return ()
+        if isinstance(cur, str) and isinstance(r, str) and e['op'] in ('AddAssign', 'Add') and l['k'] == 'Path' and l['res'].get('t') == 'local':
+            env[l['res']['id']] = cur + r
+            return ()
         raise Unanalysable('compound assignment', e)
 
     def e_Ret(self, e, env):
@@ -595,7 +598,13 @@ class Evaluator:
                 return ('Some', args[0])
             raise Unanalysable('constructor ' + path, e)
         if callee is None:
-            raise Unanalysable('indirect call', e)
+            fv = self.eval(e['f'], env)
+            args = [self.eval(a, env) for a in e['args']]
+            if isinstance(fv, Closure):
+                return self.call_closure(fv, args)
+            if isinstance(fv, tuple) and len(fv) == 2 and fv[0] == 'fn':
+                return self.apply_fn(fv[1], args, e, env)
+            raise Unanalysable('indirect call of %r' % (fv,), e)
         args = [self.eval(a, env) for a in e['args']]
         if callee.endswith('try_trait::Try::branch') and len(args) == 1 and isinstance(args[0], Res):
             return ('cf', 'Continue', args[0].payload) if args[0].ok else ('cf', 'Break', Res(False, args[0].payload))
@@ -607,6 +616,33 @@ class Evaluator:
         callee = e.get('resolved') or e.get('callee')
         recv = self.eval(e['recv'], env)
         args = [self.eval(a, env) for a in e['args']]
+        if isinstance(recv, str) and e['name'] in ('push_str', 'push', 'insert_str', 'insert', 'clear', 'truncate', 'replace_range', 'pop') and \
+                _strip(callee).startswith('alloc::string::String::'):
+            target = H.peel(e['recv'])
+            while target.get('k') in ('AddrOf',) or (target.get('k') == 'Unary' and target.get('op') == 'Deref'):
+                target = H.peel(target['e'])
+            if target.get('k') == 'Path' and target['res'].get('t') == 'local':
+                n = e['name']
+                ret = ()
+                if n in ('push_str', 'push'):
+                    new = recv + args[0]
+                elif n in ('insert_str', 'insert'):
+                    b = recv.encode('utf-8')
+                    new = (b[:args[0]] + args[1].encode('utf-8') + b[args[0]:]).decode('utf-8')
+                elif n == 'clear':
+                    new = ''
+                elif n == 'truncate':
+                    new = recv.encode('utf-8')[:args[0]].decode('utf-8')
+                elif n == 'pop':
+                    new, ret = recv[:-1], (('Some', recv[-1]) if recv else None)
+                else:
+                    r = args[0]
+                    b = recv.encode('utf-8')
+                    lo, hi = (r.get('start', 0), r.get('end', len(b))) if isinstance(r, dict) else (r[1], r[2] + 1)
+                    new = (b[:lo] + args[1].encode('utf-8') + b[hi:]).decode('utf-8')
+                env[target['res']['id']] = new
+                return ret
+            raise Unanalysable('string mutation through a non-local place', e)
         return self.apply_fn(callee, [recv] + args, e, env, method=e['name'])
 
     # -- functions -------------------------------------------------------------------------------
@@ -617,6 +653,10 @@ class Evaluator:
         r = self.collection_method(c, name, a0, args, e)
         if r is not NotImplemented:
             return r
+        # --- functions of the language modules (helpers may take the builder as an argument)
+        if callee and isinstance(a0, Builder) and not c.startswith('digit_string::') and \
+                (callee.split('::')[0] == 'lang' or callee.startswith('<lang::')) and self.facts.body(callee) is not None:
+            return self.call_fn(callee, args)
         # --- builder
         if c == 'digit_string::DigitString::new' and not args:
             return Builder()
